@@ -5,7 +5,8 @@
 From Coq Require Import NArith List Bool.
 From CB Require Import Gen.HostCosts Contract.HostBase Contract.HostBaseProofs Contract.HostV0 Contract.HostV0Proofs
   Contract.HostV1 Contract.HostV1Proofs Contract.HostLimitsProofs Contract.HostChargeProofs
-  Contract.HostHistoryProofs Contract.HostCosts Contract.HostRun.
+  Contract.HostHistoryProofs Contract.HostCosts Contract.HostRun
+  Contract.HostTreeEnergy Contract.HostTreeEnergyProofs Contract.HostTreeChargeProofs Contract.HostOoeProofs.
 Import ListNotations.
 Local Open Scope N_scope.
 
@@ -284,3 +285,94 @@ Example simple_transfer_charges_base_action_cost :
   /\ BASE_ACTION_COST < BASE_SIMPLE_TRANSFER_ACTION_COST.
 Proof. split; vm_compute; reflexivity. Qed.
 Print Assumptions simple_transfer_charges_base_action_cost.
+
+(** ** Energy charged by the state tree for traversals (HostTreeEnergy.v): `MutableTrie::delete_prefix`
+    and `MutableTrie::next` charge TREE_TRAVERSAL_STEP_COST per step through the `TraversalCounter`;
+    the model computes the number of steps exactly from the tree ([Radix.tree]), the key and the set
+    [E] of nodes whose children are owned in the current generation.  The correspondence compares the
+    remaining energy exactly. *)
+
+(** delete_prefix: the charge is linear in the number of nodes actually visited (= invalidated): each
+    costs its stem length + 1, and a stem is part of a key of at most [L] chunks *)
+Theorem tree_delete_prefix_charge_linear_in_visited : forall L (t : tr) E acc,
+  Forall (fun k => nlen k <= L) (node_keys acc t) -> dp_steps E acc t <= (L + 1) * dp_visited E acc t.
+Proof. exact dp_steps_le_visited. Qed.
+Print Assumptions tree_delete_prefix_charge_linear_in_visited.
+
+Theorem tree_delete_prefix_visited_bounded : forall (t : tr) E acc, 1 <= dp_visited E acc t <= tnodes t.
+Proof. exact (proj1 dp_visited_le_nodes_both). Qed.
+Print Assumptions tree_delete_prefix_visited_bounded.
+
+(** ... and never more than nodes + stem chunks of the whole tree, whatever the key *)
+Theorem tree_delete_prefix_charge_le_size : forall E key r, delete_prefix_steps E key r <= size_root r.
+Proof. exact delete_prefix_steps_le_size. Qed.
+Print Assumptions tree_delete_prefix_charge_le_size.
+
+(** expanding more nodes (lookups, iteration) never lowers the charge *)
+Theorem tree_delete_prefix_charge_monotone : forall E E', (forall k, memk k E = true -> memk k E' = true) ->
+  forall (t : tr) acc, dp_steps E acc t <= dp_steps E' acc t.
+Proof. exact (fun E E' H => proj1 (dp_steps_mono_both E E' H)). Qed.
+Print Assumptions tree_delete_prefix_charge_monotone.
+
+(** iteration: all `next` calls of one walk together charge exactly 2 * (nodes + stem chunks) - 2 - (stem
+    of the start node) steps; a single call charges at most that *)
+Theorem tree_walk_total_charge : forall (t : tr) acc,
+  sum_charges (dfs acc t) + nlen (tpath t) + 2 = 2 * (tnodes t + tstems t).
+Proof. exact dfs_total_charge. Qed.
+Print Assumptions tree_walk_total_charge.
+
+Theorem tree_next_charge_le_size : forall r prefix started exhausted last,
+  fst (next_cost r prefix started exhausted last) <= 2 * size_root r.
+Proof. exact next_cost_le_size. Qed.
+Print Assumptions tree_next_charge_le_size.
+
+(** charge before work, over the observables (linear memory, entries, iterators, locks, handle map,
+    expanded nodes, logs, return value): when the traversal charge cannot be paid, none of them changed *)
+Theorem charge_before_work_delete_prefix : forall key_start key_len (s : st (host v1ext)),
+  snd (state_delete_prefix key_start key_len s) = OutOfEnergy ->
+  observables (fst (state_delete_prefix key_start key_len s)) = observables s.
+Proof. exact delete_prefix_ooe_unchanged. Qed.
+Print Assumptions charge_before_work_delete_prefix.
+
+Theorem charge_before_work_iterator_next : forall it (s : st (host v1ext)),
+  snd (state_iterator_next it s) = OutOfEnergy ->
+  observables (fst (state_iterator_next it s)) = observables s.
+Proof. exact iterator_next_ooe_unchanged. Qed.
+Print Assumptions charge_before_work_iterator_next.
+
+(** non-vacuity: the tree of the keys 0x1234, 0x1235, 0x20 (root - [1] stem 2,3 - leaves 4, 5; [2] stem 0).
+    delete_prefix 0x12 charges 3 steps while the node is not expanded, 5 after a lookup below it; the three
+    `next` calls of an iterator over 0x12 charge 3 + 2 + 1 = 2*(3+2) - 2 - 2 steps, a fourth one nothing;
+    with 100 energy delete_prefix pays the find cost (10) but not the 120 for the traversal: OutOfEnergy;
+    with 500 it succeeds and 370 remain; after looking up 0x1234 it costs 10 + 5*40. *)
+Example tree_energy_nonvacuous :
+  let r := tree_of [[18; 52]; [18; 53]; [32]] in
+  let sc := mkScript true false 5 1 [] [] true [] [([18; 52], [1]); ([18; 53], [2]); ([32], [])] [(1024, [18; 52])] [] 0 [] [] in
+  (delete_prefix_steps [] [18] r, delete_prefix_steps [[1; 2; 3]] [18] r, size_root r) = (3, 5, 8)
+  /\ (fst (next_cost r [18] false false []), fst (next_cost r [18] true false [18; 52]),
+      fst (next_cost r [18] true false [18; 53]), fst (next_cost r [18] true true [18])) = (3, 2, 1, 0)
+  /\ snd (state_delete_prefix 1024 1 (init_st sc 100)) = OutOfEnergy
+  /\ (snd (state_delete_prefix 1024 1 (init_st sc 500)), energy (fst (state_delete_prefix 1024 1 (init_st sc 500)))) = (Ok (Some 2), 370)
+  /\ (let s := fst (state_lookup_entry 1024 2 (init_st sc 100000)) in
+      energy s - energy (fst (state_delete_prefix 1024 1 s))) = 10 + 5 * TREE_TRAVERSAL_STEP_COST.
+Proof. repeat split; vm_compute; reflexivity. Qed.
+Print Assumptions tree_energy_nonvacuous.
+
+(** charge before work over the observables, for every v1 host function except the two with staged
+    charges ([state_entry_write], [state_entry_resize]: the entry is made owned - copy-on-write, charged
+    by `allocate` - before the growth is charged; observation O3): a call that ends in OutOfEnergy has
+    not touched linear memory, entries, iterators, locks, handle map, expanded nodes, logs or the return
+    value.  PARTIAL: the two excluded functions; v0 is covered by the event-list theorem only. *)
+Theorem charge_before_work_observables_v1_partial : forall f args (s : st (host v1ext)),
+  f <> V1state_entry_write -> f <> V1state_entry_resize ->
+  snd (call_v1 f args s) = OutOfEnergy -> observables (fst (call_v1 f args s)) = observables s.
+Proof. exact call_v1_ooe_unchanged_partial. Qed.
+Print Assumptions charge_before_work_observables_v1_partial.
+
+Example charge_before_work_observables_nonvacuous :
+  let sc := mkScript true false 5 1 [] [] true [] [([18; 52], [1]); ([18; 53], [2]); ([32], [])] [(1024, [18; 52])] [] 0 [] [] in
+  snd (call_v1 V1state_delete_prefix [1024; 1] (init_st sc 100)) = OutOfEnergy
+  /\ snd (call_v1 V1log_event [1024; 2] (init_st sc 3)) = OutOfEnergy
+  /\ V1log_event <> V1state_entry_write /\ V1log_event <> V1state_entry_resize.
+Proof. repeat split; try (vm_compute; reflexivity); discriminate. Qed.
+Print Assumptions charge_before_work_observables_nonvacuous.
